@@ -48,9 +48,8 @@ struct OpState {
     key: Option<AnyKey>,
     token: Option<Cancel>,
     ptr: u64,
-    // single: pipe
-    pipe_w: Option<OwnedFd>,
-    fed: Vec<u8>,
+    // single: id of the pipe it reads from (model fd number; iour: 100 + op index, its own pipe)
+    pipe: u64,
     // multi: listener path + clients
     sock_path: Option<std::path::PathBuf>,
     clients: Vec<UnixStream>,
@@ -68,6 +67,7 @@ struct Ev {
     ev: String,
     op: String,
     a: u64,
+    fd: u64,
 }
 
 fn pipe_nonblock() -> (OwnedFd, OwnedFd) {
@@ -77,13 +77,36 @@ fn pipe_nonblock() -> (OwnedFd, OwnedFd) {
     unsafe { (OwnedFd::from_raw_fd(fds[0]), OwnedFd::from_raw_fd(fds[1])) }
 }
 
+/// a read returned `data`: it must be exactly the oldest unread bytes the harness wrote into that pipe
+fn take_pending(pipes: &mut HashMap<u64, PipeState>, pid: u64, data: &[u8]) -> bool {
+    let Some(ps) = pipes.get_mut(&pid) else { return false };
+    if data.is_empty() || data.len() > ps.pending.len() {
+        return false;
+    }
+    let ok = ps.pending.iter().take(data.len()).copied().eq(data.iter().copied());
+    if ok {
+        ps.pending.drain(..data.len());
+    }
+    ok
+}
+
 /// The driver-level API does not set the buffer length (the runtime layer does): look at the memory.
 fn raw_prefix(b: &TBuf, n: usize) -> Vec<u8> {
     assert!(n <= b.v.capacity());
     unsafe { std::slice::from_raw_parts(b.v.as_ptr(), n) }.to_vec()
 }
 
+struct PipeState {
+    r: SharedFd<OwnedFd>,
+    w: OwnedFd,
+    /// bytes written by the harness and not yet returned by a read operation
+    pending: std::collections::VecDeque<u8>,
+    feeds: u8,
+}
+
 struct Ctx {
+    pipes: HashMap<u64, PipeState>,
+    rawfd2fd: HashMap<u64, u64>,
     ops: Vec<OpState>,
     ptr2op: HashMap<u64, String>,
     trace: Vec<Ev>,
@@ -94,7 +117,22 @@ impl Ctx {
     fn translate(&mut self, raw: &[RawEvent], commit: bool) -> Vec<Ev> {
         let mut out = vec![];
         for e in raw {
+            let mut fd = 0u64;
             let (ev, key_is_ptr, a) = match e.site {
+                "poll.submit" => {
+                    fd = self.rawfd2fd.get(&e.b).copied().unwrap_or(999);
+                    ("psubmit", true, 0)
+                }
+                "poll.pop" => {
+                    fd = self.rawfd2fd.get(&e.b).copied().unwrap_or(999);
+                    ("ppop", true, 0)
+                }
+                "poll.cancel" => {
+                    fd = self.rawfd2fd.get(&e.b).copied().unwrap_or(999);
+                    ("pcancel", true, 0)
+                }
+                "poll.event" => ("pevent", true, 0),
+                "poll.dropped" => ("ringclosed", false, 0),
                 "op.alloc" => ("alloc", true, 0),
                 "op.free" => ("free", true, 0),
                 "op.result" => ("result", true, 0),
@@ -119,7 +157,7 @@ impl Ctx {
                 }
             } else if e.site == "h.bufdrop" {
                 self.bufid2op.get(&e.a).cloned().unwrap_or_else(|| "?buf".into())
-            } else if e.site == "iour.ring_closed" {
+            } else if e.site == "iour.ring_closed" || e.site == "poll.dropped" {
                 "o1".into()
             } else {
                 // harness events carry the op index in a
@@ -145,12 +183,14 @@ impl Ctx {
                 ev: ev.to_string(),
                 op: op.clone(),
                 a,
+                fd,
             });
             if synth {
                 out.push(Ev {
                     ev: "hbufdrop".into(),
                     op,
                     a: 0,
+                    fd: 0,
                 });
             }
         }
@@ -163,19 +203,19 @@ fn hev(site: &'static str, opidx: usize, a: u64) {
 }
 
 /// Normalised form for the step comparison.
-fn norm(evs: &[Ev], kinds: &HashMap<String, String>) -> Vec<(String, String, u64)> {
+fn norm(evs: &[Ev], kinds: &HashMap<String, String>) -> Vec<(String, String, u64, u64)> {
     evs.iter()
         .filter(|e| e.ev != "bstart")
         .filter(|e| !(e.ev == "hbufdrop" && kinds.get(&e.op).map(|k| k == "multi").unwrap_or(false)))
         .map(|e| {
             let a = if e.ev == "result" { 0 } else { e.a };
-            (e.ev.clone(), e.op.clone(), a)
+            (e.ev.clone(), e.op.clone(), a, e.fd)
         })
         .collect()
 }
 
 /// expected a MORE completion of a multishot op but the kernel delivered its final completion
-fn env_diverged(ne: &[(String, String, u64)], na: &[(String, String, u64)], kinds: &HashMap<String, String>) -> bool {
+fn env_diverged(ne: &[(String, String, u64, u64)], na: &[(String, String, u64, u64)], kinds: &HashMap<String, String>) -> bool {
     for (i, e) in ne.iter().enumerate() {
         if na.get(i) != Some(e) {
             return e.0 == "cqe" && e.2 == 1 && kinds.get(&e.1).map(|k| k == "multi").unwrap_or(false)
@@ -195,15 +235,31 @@ fn settle(driver: &mut Proactor, ctx: &mut Ctx, cursor: &mut usize, ms: u64) -> 
         *cursor += raw.len();
         let evs = ctx.translate(&raw, true);
         ctx.trace.extend(evs);
-        let waiting: Vec<usize> = ctx
-            .ops
-            .iter()
-            .enumerate()
-            .filter(|(_, o)| {
-                o.ptr != 0 && !o.completed && ((o.cancel_requested && o.kind != "blocking") || (o.caused && o.kind != "multi"))
-            })
-            .map(|(i, _)| i)
-            .collect();
+        // pipes that still hold unread bytes: a pending reader on such a pipe must make progress
+        let mut readable: Vec<u64> = vec![];
+        for (pid, ps) in ctx.pipes.iter() {
+            let mut n: libc::c_int = 0;
+            let r = unsafe { libc::ioctl(ps.r.as_raw_fd(), libc::FIONREAD, &mut n) };
+            if r == 0 && n > 0 {
+                readable.push(*pid);
+            }
+        }
+        let mut waiting: Vec<usize> = vec![];
+        let mut seen_pipe: Vec<u64> = vec![];
+        for (i, o) in ctx.ops.iter().enumerate() {
+            if o.ptr == 0 || o.completed {
+                continue;
+            }
+            let held = o.key.is_some();
+            if o.cancel_requested && o.kind != "blocking" {
+                waiting.push(i);
+            } else if o.kind == "blocking" && o.caused {
+                waiting.push(i);
+            } else if o.kind == "single" && held && readable.contains(&o.pipe) && !seen_pipe.contains(&o.pipe) {
+                seen_pipe.push(o.pipe);
+                waiting.push(i);
+            }
+        }
         if waiting.is_empty() || t0.elapsed() > Duration::from_millis(ms) {
             return waiting;
         }
@@ -213,6 +269,13 @@ fn settle(driver: &mut Proactor, ctx: &mut Ctx, cursor: &mut usize, ms: u64) -> 
 
 fn run_case(case: &Value, rep: &mut Report, trace_out: &mut Vec<String>, settle_mode: bool, pool: &compio_driver::AsyncifyPool) {
     let sqcap = case["sqcap"].as_u64().unwrap() as u32;
+    let is_poll = case.get("driver").and_then(|d| d.as_str()) == Some("poll");
+    let fdmap: HashMap<String, u64> = case
+        .get("fds")
+        .and_then(|f| f.as_object())
+        .map(|m| m.iter().map(|(k, v)| (k.clone(), v.as_u64().unwrap())).collect())
+        .unwrap_or_default();
+    let site = if is_poll { "poll" } else { "iour" };
     let kinds: HashMap<String, String> =
         case["kinds"].as_object().unwrap().iter().map(|(k, v)| (k.clone(), v.as_str().unwrap().to_string())).collect();
     let mut names: Vec<String> = kinds.keys().cloned().collect();
@@ -220,6 +283,8 @@ fn run_case(case: &Value, rep: &mut Report, trace_out: &mut Vec<String>, settle_
     let dir = std::env::temp_dir().join(format!("verif_drv_{}_{}", std::process::id(), rep.cases));
     let _ = std::fs::create_dir_all(&dir);
     let mut ctx = Ctx {
+        pipes: HashMap::new(),
+        rawfd2fd: HashMap::new(),
         ops: names
             .iter()
             .map(|n| OpState {
@@ -228,8 +293,7 @@ fn run_case(case: &Value, rep: &mut Report, trace_out: &mut Vec<String>, settle_
                 key: None,
                 token: None,
                 ptr: 0,
-                pipe_w: None,
-                fed: vec![],
+                pipe: 0,
                 sock_path: None,
                 clients: vec![],
                 gate: None,
@@ -249,17 +313,17 @@ fn run_case(case: &Value, rep: &mut Report, trace_out: &mut Vec<String>, settle_
     rec::clear();
     let mut driver = Some(
         Proactor::builder()
-            .driver_type(DriverType::IoUring)
+            .driver_type(if is_poll { DriverType::Poll } else { DriverType::IoUring })
             .capacity(sqcap)
             .cqsize(64)
             .reuse_thread_pool(pool.clone())
             .build()
-            .expect("build io_uring proactor"),
+            .expect("build proactor"),
     );
     let steps = case["steps"].as_array().unwrap();
     let mut teardown = false;
-    let mut tail_expected: Vec<(String, String, u64)> = vec![];
-    let mut tail_actual: Vec<(String, String, u64)> = vec![];
+    let mut tail_expected: Vec<(String, String, u64, u64)> = vec![];
+    let mut tail_actual: Vec<(String, String, u64, u64)> = vec![];
     // in settle mode the promptness oracle polls outside the schedule: no event comparison then
     let mut drifted = settle_mode;
     let mut cursor = rec::mark();
@@ -276,6 +340,7 @@ fn run_case(case: &Value, rep: &mut Report, trace_out: &mut Vec<String>, settle_
                 ev: e["ev"].as_str().unwrap().to_string(),
                 op: e["op"].as_str().unwrap().to_string(),
                 a: e["a"].as_u64().unwrap(),
+                fd: e.get("fd").and_then(|f| f.as_u64()).unwrap_or(0),
             })
             .collect();
         // contiguous windows: events of pool threads between two steps belong to the next step
@@ -287,10 +352,23 @@ fn run_case(case: &Value, rep: &mut Report, trace_out: &mut Vec<String>, settle_
                 let kind = ctx.ops[oi].kind.clone();
                 match kind.as_str() {
                     "single" => {
-                        let (r, w) = pipe_nonblock();
-                        ctx.ops[oi].pipe_w = Some(w);
+                        // poll: the pipe named by the model's fd number (shared by the ops on that fd);
+                        // io_uring model: every op has its own pipe
+                        let pid = if is_poll { fdmap[opname] } else { 100 + oi as u64 };
+                        if !ctx.pipes.contains_key(&pid) {
+                            let (r, w) = pipe_nonblock();
+                            ctx.rawfd2fd.insert(r.as_raw_fd() as u64, pid);
+                            ctx.pipes.insert(pid, PipeState {
+                                r: SharedFd::new(r),
+                                w,
+                                pending: Default::default(),
+                                feeds: 0,
+                            });
+                        }
+                        ctx.ops[oi].pipe = pid;
+                        let rfd = ctx.pipes[&pid].r.clone();
                         let buf = TBuf::with_capacity(oi as u64 + 1, 8);
-                        match d.push(Read::new(SharedFd::new(r), buf)) {
+                        match d.push(Read::new(rfd, buf)) {
                             PushEntry::Pending(k) => {
                                 ctx.ops[oi].key = Some(AnyKey::Read(k));
                                 hev("h.hsub", oi, 0);
@@ -338,14 +416,25 @@ fn run_case(case: &Value, rep: &mut Report, trace_out: &mut Vec<String>, settle_
                     }
                 }
             }
-            "kfinal" => {
-                // make the read complete: write a tagged block into the op's pipe
-                let data: Vec<u8> = (0..5u8).map(|i| 0x10 * (oi as u8 + 1) + i).collect();
-                let w = ctx.ops[oi].pipe_w.as_ref().expect("pipe");
-                let n = unsafe { libc::write(w.as_raw_fd(), data.as_ptr() as _, data.len()) };
-                assert_eq!(n, data.len() as isize);
-                ctx.ops[oi].fed = data;
-                ctx.ops[oi].caused = true;
+            "kfinal" | "feed" => {
+                // make the descriptor readable: write a tagged block into the pipe
+                let pid = if act == "feed" { st["fd"].as_u64().unwrap() } else { ctx.ops[oi].pipe };
+                if !ctx.pipes.contains_key(&pid) {
+                    let (r, w) = pipe_nonblock();
+                    ctx.rawfd2fd.insert(r.as_raw_fd() as u64, pid);
+                    ctx.pipes.insert(pid, PipeState {
+                        r: SharedFd::new(r),
+                        w,
+                        pending: Default::default(),
+                        feeds: 0,
+                    });
+                }
+                let ps = ctx.pipes.get_mut(&pid).unwrap();
+                ps.feeds = ps.feeds.wrapping_add(1);
+                let data: Vec<u8> = (0..3u8).map(|i| ((pid as u8 & 7) << 5) | ((ps.feeds & 7) << 2) | i).collect();
+                let n = unsafe { libc::write(ps.w.as_raw_fd(), data.as_ptr() as _, data.len()) };
+                assert_eq!(n, data.len() as isize, "harness: pipe write failed");
+                ps.pending.extend(data);
             }
             "kmore" => {
                 let p = ctx.ops[oi].sock_path.clone().expect("listener");
@@ -385,7 +474,7 @@ fn run_case(case: &Value, rep: &mut Report, trace_out: &mut Vec<String>, settle_
                 hev("h.htake", oi, 0);
                 let key = ctx.ops[oi].key.take().expect("pop without key");
                 let cancel_req = ctx.ops[oi].cancel_requested;
-                let fed = ctx.ops[oi].fed.clone();
+                let pid = ctx.ops[oi].pipe;
                 let back = match key {
                     AnyKey::Read(k) => match d.pop(k) {
                         PushEntry::Pending(k) => Some(AnyKey::Read(k)),
@@ -394,7 +483,7 @@ fn run_case(case: &Value, rep: &mut Report, trace_out: &mut Vec<String>, settle_
                             let mut buf = op.into_inner();
                             buf.taken = true;
                             let ok = match &res {
-                                Ok(n) => *n > 0 && *n <= fed.len() && raw_prefix(&buf, *n) == fed[..*n],
+                                Ok(n) => take_pending(&mut ctx.pipes, pid, &raw_prefix(&buf, *n)),
                                 Err(e) => cancel_req && e.raw_os_error() == Some(libc::ECANCELED),
                             };
                             hev("h.hready", oi, ok as u64);
@@ -440,7 +529,7 @@ fn run_case(case: &Value, rep: &mut Report, trace_out: &mut Vec<String>, settle_
                 let d = driver.as_mut().unwrap();
                 hev("h.htake", oi, 0);
                 ctx.ops[oi].cancel_requested = true;
-                let fed = ctx.ops[oi].fed.clone();
+                let pid = ctx.ops[oi].pipe;
                 match ctx.ops[oi].key.take().expect("cancel without key") {
                     AnyKey::Read(k) => {
                         if let Some(BufResult(res, op)) = d.cancel(k) {
@@ -448,7 +537,7 @@ fn run_case(case: &Value, rep: &mut Report, trace_out: &mut Vec<String>, settle_
                             let mut buf = op.into_inner();
                             buf.taken = true;
                             let ok = match &res {
-                                Ok(n) => *n > 0 && *n <= fed.len() && raw_prefix(&buf, *n) == fed[..*n],
+                                Ok(n) => take_pending(&mut ctx.pipes, pid, &raw_prefix(&buf, *n)),
                                 Err(e) => e.raw_os_error() == Some(libc::ECANCELED),
                             };
                             hev("h.hready", oi, ok as u64);
@@ -501,7 +590,7 @@ fn run_case(case: &Value, rep: &mut Report, trace_out: &mut Vec<String>, settle_
                         let o = &ctx.ops[oi2];
                         rep.problem(
                             "hang",
-                            json!({"site": "iour", "what": if o.caused && !o.cancel_requested { "finished-op-never-delivered" } else { "cancelled-op-never-completes" }, "cancel_dropped_sq_full": o.cancel_dropped, "kind": o.kind}),
+                            json!({"site": site, "what": if !o.cancel_requested { "finished-op-never-delivered" } else { "cancelled-op-never-completes" }, "cancel_dropped_sq_full": o.cancel_dropped, "kind": o.kind}),
                             format!("operation {} ({}): cancelled={} event-happened={} but no completion was delivered within 400 ms of polling", o.name, o.kind, o.cancel_requested, o.caused),
                             case,
                             si,
@@ -528,10 +617,14 @@ fn run_case(case: &Value, rep: &mut Report, trace_out: &mut Vec<String>, settle_
         let got2 = got;
         ctx.trace.extend(got2.iter().cloned());
         if let Some(h) = hang {
-            rep.problem("hang", json!({"site": "iour", "action": act, "kind": ctx.ops[oi].kind}), h, case, si);
+            rep.problem("hang", json!({"site": site, "action": act, "kind": ctx.ops[oi].kind}), h, case, si);
         }
-        let ne = norm(&expected, &kinds);
-        let na = norm(&got2, &kinds);
+        let mut ne = norm(&expected, &kinds);
+        let mut na = norm(&got2, &kinds);
+        if is_poll && (act == "poll" || act == "dropdrv") {
+            ne.sort();
+            na.sort();
+        }
         let na: Vec<_> = na.into_iter().filter(|e| !(e.0 == "hbufdrop" && kinds.get(&e.1).map(|k| k == "multi").unwrap_or(false))).collect();
         if teardown {
             tail_expected.extend(ne);
@@ -545,7 +638,7 @@ fn run_case(case: &Value, rep: &mut Report, trace_out: &mut Vec<String>, settle_
             drifted = true;
             rep.problem(
                 "mismatch",
-                json!({"site": "iour", "action": act}),
+                json!({"site": site, "action": act}),
                 format!("step {si} ({act} {opname}): model events {ne:?}, driver events {na:?}"),
                 case,
                 si,
@@ -560,7 +653,7 @@ fn run_case(case: &Value, rep: &mut Report, trace_out: &mut Vec<String>, settle_
         if a != b {
             rep.problem(
                 "mismatch",
-                json!({"site": "iour", "action": "teardown"}),
+                json!({"site": site, "action": "teardown"}),
                 format!("teardown: model events {tail_expected:?}, driver events {tail_actual:?}"),
                 case,
                 steps.len(),
@@ -575,7 +668,7 @@ fn run_case(case: &Value, rep: &mut Report, trace_out: &mut Vec<String>, settle_
                 let o = &ctx.ops[oi2];
                 rep.problem(
                     "hang",
-                    json!({"site": "iour", "what": if o.caused && !o.cancel_requested { "finished-op-never-delivered" } else { "cancelled-op-never-completes" }, "cancel_dropped_sq_full": o.cancel_dropped, "kind": o.kind}),
+                    json!({"site": site, "what": if !o.cancel_requested { "finished-op-never-delivered" } else { "cancelled-op-never-completes" }, "cancel_dropped_sq_full": o.cancel_dropped, "kind": o.kind}),
                     format!("operation {} ({}): cancelled={} event-happened={} but no completion was delivered within 400 ms of polling", o.name, o.kind, o.cancel_requested, o.caused),
                     case,
                     steps.len(),
@@ -603,7 +696,7 @@ fn run_case(case: &Value, rep: &mut Report, trace_out: &mut Vec<String>, settle_
     let _ = std::fs::remove_dir_all(&dir);
     trace_out.push(json!({"ev": "reset", "op": "o1", "a": 0, "fd": 0, "case": rep.cases}).to_string());
     for e in &ctx.trace {
-        trace_out.push(json!({"ev": e.ev, "op": e.op, "a": e.a, "fd": 0}).to_string());
+        trace_out.push(json!({"ev": e.ev, "op": e.op, "a": e.a, "fd": e.fd}).to_string());
     }
 }
 
@@ -622,7 +715,7 @@ fn main() {
     for case in cases_from_arg() {
         let r = std::panic::catch_unwind(std::panic::AssertUnwindSafe(|| run_case(&case, &mut rep, &mut trace, settle_mode, &pool)));
         if let Err(e) = r {
-            rep.problem("panic", json!({"site": "iour", "action": "replay"}), format!("panic during replay: {}", panic_msg(e)), &case, 0);
+            rep.problem("panic", json!({"site": case.get("driver").and_then(|d| d.as_str()).unwrap_or("iour"), "action": "replay"}), format!("panic during replay: {}", panic_msg(e)), &case, 0);
         }
         rep.cases += 1;
     }
